@@ -10,6 +10,7 @@ package respondent
 //@
 //@ struct socket
 //@   invariant sendQLen >= 0
+//@   invariant forall(k, contexts, k.s == this)
 //@   close_token closeQ when closed
 //@   close_token sizeQ
 //@   lock Mutex level 20
